@@ -132,10 +132,20 @@ func newEnv(connModes []string, bare ...bool) (*env, error) {
 		HandleInvite:       func(muc.Invitation) {},
 		HandleUserPresence: func(stanza.Presence, muc.Item) {},
 	}
+	blh := blocklist.Handler{
+		Block:      func(blocklist.Item) {},
+		Unblock:    func(jid.JID) {},
+		UnblockAll: func() {},
+		List: func(c chan<- jid.JID) {
+			c <- jid.MustParse("romeo@montague.example")
+			c <- jid.MustParse("capulet.example")
+		},
+	}
 	if len(bare) > 0 && bare[0] {
 		// the zero values: the optional callbacks are not set
 		e.rcpt = &receipts.Handler{}
 		e.muc = &muc.Client{}
+		blh = blocklist.Handler{}
 	}
 	e.mux = mux.New(nsClient,
 		ping.Handle(),
@@ -149,15 +159,7 @@ func newEnv(connModes []string, bare ...bool) (*env, error) {
 			}
 			return nil
 		}}),
-		blocklist.Handle(blocklist.Handler{
-			Block:      func(blocklist.Item) {},
-			Unblock:    func(jid.JID) {},
-			UnblockAll: func() {},
-			List: func(c chan<- jid.JID) {
-				c <- jid.MustParse("romeo@montague.example")
-				c <- jid.MustParse("capulet.example")
-			},
-		}),
+		blocklist.Handle(blh),
 		carbons.Handle(carbons.Handler{F: func(_ stanza.Message, _ bool, inner xml.TokenReader) error {
 			_, err := xmlstream.Copy(xmlstream.Discard(), inner)
 			return err
